@@ -12,6 +12,10 @@ checked against the call sequence extracted from PyToPy.transform_ast.
  O5  a pass that binds converter-generated names in the user's function
      precedes the pass that computes loop/branch state (control_flow); passes
      after it bind no generated names
+ O6  generated code parked in an annotation (the extra loop test) is invisible
+     to tree traversal until the pass that reads the annotation puts it into the
+     tree: that pass precedes the pass responsible for every overloadable
+     construct the parked code contains
 """
 import ast
 
@@ -238,6 +242,48 @@ def constraints(model):
       cons.append((p, state_pass, 'O5', '%s binds generated name(s) %s in the '
                    'user function; %s must see them to carry them as state' %
                    (p, sorted({ph for _, ph in b}), state_pass)))
+  # O6: code parked in annotations
+  parked = {}     # key -> {kind: 'pass:site'}
+  for p in names:
+    for st in tpl.find_sites(model, [mods[p].rel]):
+      # does the result of this template call reach a setanno of some key?
+      for n in core.walk_no_nested(st.fi.node):
+        if not (isinstance(n, ast.Call) and (core.dotted(n.func) or '').endswith(
+            'anno.setanno') and len(n.args) == 3):
+          continue
+        key = core.dotted(n.args[1])
+        if key is None or _analysis_key(n.args[1]):
+          continue
+        val = n.args[2]
+        flows = val is st.call
+        if isinstance(val, ast.Name):
+          ds = tpl.rdefs(st.fi.node).reaching(n, val.id) or []
+          flows = flows or any(d is st.call for d in ds)
+        if not flows:
+          continue
+        for t in st.templates:
+          for x in ast.walk(t.tree):
+            k = None
+            if isinstance(x, (ast.BoolOp, ast.IfExp)):
+              k = type(x).__name__
+            elif isinstance(x, ast.UnaryOp) and isinstance(x.op, ast.Not):
+              k = 'Not'
+            elif isinstance(x, ast.Compare) and any(
+                isinstance(o, (ast.Eq, ast.NotEq)) for o in x.ops):
+              k = 'Eq'
+            if k:
+              parked.setdefault(key, {}).setdefault(k, '%s:%s' % (p, st.fi.qualname))
+  for key, kinds in parked.items():
+    setters = set(allsets.get(key, {}))
+    for m in allreads.get(key, {}):
+      if m in setters:
+        continue        # re-wraps the parked code, does not put it into the tree
+      for k, where in kinds.items():
+        r = RESPONSIBLE[k]
+        if r != m:
+          cons.append((m, r, 'O6', '%s puts the code parked under %s into the '
+                       'tree; it contains %s (from %s) which %s must still '
+                       'convert' % (m, key, k, where, r)))
   # dedupe
   seen = {}
   for a, b, r, why in cons:
